@@ -91,6 +91,7 @@ func main() {
 	repo := "/repo"
 	fuzzOverride := -1
 	onlyFuzz := false
+	keepCorpus := false
 	for i := 1; i < len(args); i++ {
 		switch args[i] {
 		case "quick", "thorough":
@@ -103,6 +104,8 @@ func main() {
 			repo = args[i]
 		case "--only-fuzz":
 			onlyFuzz = true
+		case "--keep-corpus": // maintenance: copy what the campaign found interesting into the committed seed corpus
+			keepCorpus = true
 		case "--fuzztime":
 			i++
 			fuzzOverride, _ = strconv.Atoi(args[i])
@@ -301,6 +304,10 @@ func main() {
 		for _, target := range cfg.Fuzz {
 			st, viol, inc := runFuzz(fbin, work, id, target, cfg.FuzzSeconds, replayDir, kf)
 			fuzzStats[target] = st
+			if keepCorpus && len(viol) == 0 && repo == "/repo" {
+				n := keepFuzzCorpus(work, target)
+				fmt.Fprintf(os.Stderr, "kept %d corpus files of %s\n", n, target)
+			}
 			violations = append(violations, viol...)
 			if inc != "" {
 				inconclusive = inc
@@ -451,6 +458,33 @@ var (
 	reFuzzLine = regexp.MustCompile(`execs: (\d+) \(\d+/sec\)(?:, new interesting: (\d+) \(total: (\d+)\))?`)
 	reFuzzFail = regexp.MustCompile(`Failing input written to (\S+)`)
 )
+
+// keepFuzzCorpus copies the inputs the fuzz engine kept (new coverage on the unchanged
+// tree) into harness/props/testdata/fuzz/<target>, where runFuzz finds them as seeds.
+// Inputs larger than 4 KiB are left out; the directory is capped at 4,000 files.
+func keepFuzzCorpus(work, target string) int {
+	dst := filepath.Join(verifDir, "harness", "props", "testdata", "fuzz", target)
+	os.MkdirAll(dst, 0o755)
+	have, _ := os.ReadDir(dst)
+	n := 0
+	filepath.WalkDir(filepath.Join(work, "fuzzcache-"+target), func(path string, d os.DirEntry, err error) error {
+		if err != nil || d.IsDir() || len(have)+n >= 4000 {
+			return nil
+		}
+		b, err := os.ReadFile(path)
+		if err != nil || len(b) > 4096 || !strings.HasPrefix(string(b), "go test fuzz v1") {
+			return nil
+		}
+		out := filepath.Join(dst, d.Name())
+		if _, err := os.Stat(out); err != nil {
+			if os.WriteFile(out, b, 0o644) == nil {
+				n++
+			}
+		}
+		return nil
+	})
+	return n
+}
 
 // runFuzz runs one native fuzz target for a fixed time in a private directory.
 func runFuzz(bin, work, id, target string, seconds int, replayDir, kf string) (map[string]any, []ev.Violation, string) {
